@@ -466,6 +466,15 @@ class World:
         except Exception as e:
             out = "raised:" + exc_class(e)
             js["message"] = str(e)[:160]
+            if k == "MFP" and wit is not None and exc_class(e) not in ("TypeError", "ParameterError", "CalculationError"):
+                # the optimiser / initial guess itself crashes on these numbers (model fitting is C10/C12's subject): not a statement about the derivation
+                for nm in ([model] if isinstance(model, str) and model != "guess" else names):
+                    try:
+                        ModelIsotherm(pressure=list(wit[0]), loading=list(wit[1]), model=nm, branch=br, material="x04_probe", adsorbate=str(t.adsorbate), temperature=t._temperature, **t.units)
+                    except Exception as e2:
+                        if exc_class(e2) == exc_class(e):
+                            js["skip"] = f"fitting {nm} directly to the same numbers raises {exc_class(e2)}: {str(e2)[:80]}"
+                            break
             if k == "MFP" and out == "raised:CalculationError" and wit is not None:
                 # may only be refused like this if the very same fit, asked for directly, fails as well
                 try:
